@@ -111,6 +111,7 @@ class Scratch:
     def __init__(self, xlog):
         object.__setattr__(self, "_xlog", xlog)
         object.__setattr__(self, "existing", "orig")
+        object.__setattr__(self, "nothing", None)  # an existing attribute whose value is None
 
     def __setattr__(self, name, value):
         self._xlog.append(("set", name, value))
@@ -323,7 +324,7 @@ class ModelRun:
             "skipUnless_method",
             "skip_class",
         )
-        self.scratch = {"existing": "orig"}
+        self.scratch = {"existing": "orig", "nothing": None}
         self.simulate()
 
     def decide(self, stage):
